@@ -394,6 +394,8 @@ class Interp:
                 return NotImplemented
             if e.id in ("True", "False", "None"):
                 return {"True": True, "False": False, "None": None}[e.id]
+            if e.id in ("int", "float", "bool", "str", "tuple"):
+                return {"int": int, "float": float, "bool": bool, "str": str, "tuple": tuple}[e.id]  # `type(x) is int`
             raise Unsupported(f"name {e.id}")
         if isinstance(e, ast.Attribute):
             d = P.dotted(e)
@@ -509,9 +511,26 @@ class Interp:
         raise Unsupported(f"expression {type(e).__name__}: {P.un(e)[:80]}")
 
     def eval_call(self, e: ast.Call, env):
-        if e.keywords:
-            raise Unsupported(f"keyword call {P.un(e)}")
         fname = P.dotted(e.func)
+        if e.keywords:
+            # keyword arguments are supported for max/min(default=...) and for modelled collaborators
+            # handed in through `globals` (plain Python callables, e.g. constructors of modelled nodes)
+            if any(k.arg is None for k in e.keywords):
+                raise Unsupported(f"**kwargs call {P.un(e)}")
+            kwargs = {k.arg: self.eval(k.value, env) for k in e.keywords}
+            if fname in ("max", "min") and set(kwargs) == {"default"} and len(e.args) == 1:
+                items = self.iterate(self.eval(e.args[0], env))
+                return (max if fname == "max" else min)(items) if items else kwargs["default"]
+            f = self.globals.get(fname) if fname is not None else None
+            if f is not None and callable(f) and not isinstance(f, Closure):
+                args = []
+                for a in e.args:
+                    if isinstance(a, ast.Starred):
+                        args.extend(self.iterate(self.eval(a.value, env)))
+                    else:
+                        args.append(self.eval(a, env))
+                return f(*args, **kwargs)
+            raise Unsupported(f"keyword call {P.un(e)}")
         if fname == "isinstance":
             v = self.eval(e.args[0], env)
             return self._isinstance(v, e.args[1])
